@@ -243,25 +243,38 @@ theorem obfs4_data_progress (c : Crypto) (hc : CryptoSane c) (srv : Bool) (rx : 
 def ChunksBounded (evs : List NetEv) : Prop :=
   ∀ ch, NetEv.data ch ∈ evs → ch.length ≤ consumeReadSize
 
-/-- what holds between `Read` calls on a connection that has not failed -/
-structure RxInv (c : Crypto) (srv : Bool) (rx : Rx) : Prop where
+/-- what holds between `Read` calls on a connection that has not failed: the decoder state is
+    legal, `receiveBuffer` holds at most `S` bytes and both buffers together at most
+    `S + consumeReadSize`.  `S` is `maxFrameLength − 1` for a server (its handshake resets the
+    buffer) and `obfs4HsBound` for a client (`clientHandshake` leaves whatever followed the
+    server response in `receiveBuffer`). -/
+structure RxInv (S : Nat) (rx : Rx) : Prop where
   dec : DecOK rx.dec
-  settled : rxStep c srv rx.dec rx.rxBuf = none
-  total : rx.rxBuf.length + rx.decoded.length ≤ obfs4DataBound
+  raw : rx.rxBuf.length ≤ S
+  total : rx.rxBuf.length + rx.decoded.length ≤ S + consumeReadSize
 
-theorem rxInv_init (c : Crypto) (srv : Bool) : RxInv c srv Rx.init :=
-  ⟨decOK_init, by simp [rxStep, Framing.step, Rx.init, Dec.init, lengthLength], by simp [Rx.init]⟩
+theorem rxInv_init (S : Nat) : RxInv S Rx.init :=
+  ⟨decOK_init, by simp [Rx.init], by simp [Rx.init]⟩
 
-/-- what a `Read` call guarantees about the state it leaves -/
-def ReadPost (c : Crypto) (srv : Bool) : ReadResult → Prop
+/-- the state `clientHandshake` hands over: fresh decoder, the surplus of the handshake buffer -/
+def clientStart (surplus : Bytes) : Rx := ⟨Dec.init, surplus, [], []⟩
+
+theorem rxInv_clientStart (surplus : Bytes) (h : surplus.length ≤ obfs4HsBound) :
+    RxInv obfs4HsBound (clientStart surplus) :=
+  ⟨decOK_init, h, by simp only [clientStart, List.length_nil]; omega⟩
+
+/-- what a `Read` call guarantees about the state it leaves: always the bound on the total;
+    the full invariant unless it returned an error (then the connection is dead) -/
+def ReadPost (S : Nat) : ReadResult → Prop
   | .ret rx' _ err _ =>
-    rx'.rxBuf.length + rx'.decoded.length ≤ obfs4DataBound ∧ DecOK rx'.dec ∧
-    (err = none → RxInv c srv rx')
-  | .blocked rx' => RxInv c srv rx'
+    DecOK rx'.dec ∧ rx'.rxBuf.length + rx'.decoded.length ≤ S + consumeReadSize ∧
+    (err = none → RxInv S rx')
+  | .blocked rx' => RxInv S rx'
 
-private theorem read_inv (c : Crypto) (hc : CryptoSane c) (srv : Bool) (n : Nat) :
-    ∀ (evs : List NetEv) (rx : Rx), RxInv c srv rx → ChunksBounded evs →
-      ReadPost c srv (read c srv n rx evs) := by
+private theorem read_inv (c : Crypto) (hc : CryptoSane c) (srv : Bool) (n : Nat) (S : Nat)
+    (hS : maxFrameLength - 1 ≤ S) :
+    ∀ (evs : List NetEv) (rx : Rx), RxInv S rx → ChunksBounded evs →
+      ReadPost S (read c srv n rx evs) := by
   intro evs
   induction evs with
   | nil =>
@@ -269,42 +282,42 @@ private theorem read_inv (c : Crypto) (hc : CryptoSane c) (srv : Bool) (n : Nat)
     have := hi.total
     by_cases hdz : rx.decoded.length > 0
     · rw [Obfs4.read, if_pos hdz]
-      refine ⟨by simp only [List.length_drop]; omega, hi.dec, fun _ => ⟨hi.dec, hi.settled, ?_⟩⟩
-      simp only [List.length_drop]; omega
+      exact ⟨hi.dec, by simp only [List.length_drop]; omega,
+        fun _ => ⟨hi.dec, hi.raw, by simp only [List.length_drop]; omega⟩⟩
     · rw [Obfs4.read, if_neg hdz]
       exact hi
   | cons ev rest ih =>
     intro rx hi hcb
     have hrest : ChunksBounded rest := fun ch hm => hcb ch (by simp [hm])
     have := hi.total
+    have := hi.raw
     by_cases hdz : rx.decoded.length > 0
     · rw [Obfs4.read, if_pos hdz]
-      refine ⟨by simp only [List.length_drop]; omega, hi.dec, fun _ => ⟨hi.dec, hi.settled, ?_⟩⟩
-      simp only [List.length_drop]; omega
+      exact ⟨hi.dec, by simp only [List.length_drop]; omega,
+        fun _ => ⟨hi.dec, hi.raw, by simp only [List.length_drop]; omega⟩⟩
     · rw [Obfs4.read, if_neg hdz]
       have hdz' : rx.decoded.length = 0 := by omega
-      have hshort := settled_short c srv rx.dec rx.rxBuf hi.dec hi.settled
-      -- the state and verdict `readPackets` produces: bounded, legal, settled if no error
-      have key : (readPackets c srv rx ev).1.rxBuf.length + (readPackets c srv rx ev).1.decoded.length
-            ≤ obfs4DataBound ∧ DecOK (readPackets c srv rx ev).1.dec ∧
-          ((readPackets c srv rx ev).2 = none →
-            rxStep c srv (readPackets c srv rx ev).1.dec (readPackets c srv rx ev).1.rxBuf = none) := by
+      -- the state and verdict `readPackets` produces: legal, bounded; short again if no error
+      have key : DecOK (readPackets c srv rx ev).1.dec ∧
+          (readPackets c srv rx ev).1.rxBuf.length + (readPackets c srv rx ev).1.decoded.length
+            ≤ S + consumeReadSize ∧
+          ((readPackets c srv rx ev).2 = none → (readPackets c srv rx ev).1.rxBuf.length ≤ S) := by
         cases ev with
         | data chunk =>
           have hch : chunk.length ≤ consumeReadSize := hcb chunk (by simp)
           simp only [readPackets]
           have hd1 : DecOK ({ rx with rxBuf := rx.rxBuf ++ chunk } : Rx).dec := hi.dec
-          obtain ⟨t1, t2, _⟩ := processBuffer_total c hc srv
+          obtain ⟨t1, t2, t3⟩ := processBuffer_total c hc srv
             (procFuel { rx with rxBuf := rx.rxBuf ++ chunk }) _ hd1
-          refine ⟨?_, t1, ?_⟩
-          · simp only [List.length_append] at t2
-            have : obfs4DataBound = consumeReadSize + maxFrameLength - 1 := rfl
-            omega
-          · exact processBuffer_settles c hc srv _ _ hd1 (by unfold procFuel; omega)
+          simp only [List.length_append] at t2 t3
+          refine ⟨t1, by omega, fun herr => ?_⟩
+          have hs := processBuffer_settles c hc srv _ _ hd1 (by unfold procFuel; omega) herr
+          have := settled_short c srv _ _ t1 hs
+          omega
         | fail cls =>
           simp only [readPackets]
-          obtain ⟨t1, t2, _⟩ := processBuffer_total c hc srv (procFuel rx) rx hi.dec
-          exact ⟨by omega, t1, fun h => by simp at h⟩
+          obtain ⟨t1, t2, t3⟩ := processBuffer_total c hc srv (procFuel rx) rx hi.dec
+          exact ⟨t1, by omega, fun h => by simp at h⟩
       obtain ⟨k1, k2, k3⟩ := key
       cases hrp : readPackets c srv rx ev with
       | mk rx1 err =>
@@ -312,60 +325,91 @@ private theorem read_inv (c : Crypto) (hc : CryptoSane c) (srv : Bool) (n : Nat)
         dsimp only at k1 k2 k3
         cases err with
         | some e =>
-          exact ⟨by simp only [List.length_drop]; omega, k2, fun h => by simp at h⟩
+          exact ⟨k1, by simp only [List.length_drop]; omega, fun h => by simp at h⟩
         | none =>
-          exact ih rx1 ⟨k2, k3 rfl, k1⟩ hrest
+          exact ih rx1 ⟨k1, k3 rfl, k2⟩ hrest
 
-/-- the receive-side states an obfs4 connection can be in between `Read` calls: any sequence
-    of `Read(b)` calls with any buffer sizes, against any sequence of network reads (any bytes,
-    any segmentation into at most `consumeReadSize` per read, failures at any point) -/
-inductive Reachable (c : Crypto) (srv : Bool) : Rx → Prop
-  | init : Reachable c srv Rx.init
-  | ret {rx n evs rx' bytes rest} : Reachable c srv rx → ChunksBounded evs →
-      read c srv n rx evs = .ret rx' bytes none rest → Reachable c srv rx'
-  | blocked {rx n evs rx'} : Reachable c srv rx → ChunksBounded evs →
-      read c srv n rx evs = .blocked rx' → Reachable c srv rx'
+/-- the receive-side states an obfs4 connection can be in between `Read` calls, starting from
+    `rx0`: any sequence of `Read(b)` calls with any buffer sizes, against any sequence of
+    network reads (any bytes, any segmentation into at most `consumeReadSize` per read,
+    failures at any point) -/
+inductive Reachable (c : Crypto) (srv : Bool) (rx0 : Rx) : Rx → Prop
+  | init : Reachable c srv rx0 rx0
+  | ret {rx n evs rx' bytes rest} : Reachable c srv rx0 rx → ChunksBounded evs →
+      read c srv n rx evs = .ret rx' bytes none rest → Reachable c srv rx0 rx'
+  | blocked {rx n evs rx'} : Reachable c srv rx0 rx → ChunksBounded evs →
+      read c srv n rx evs = .blocked rx' → Reachable c srv rx0 rx'
 
-theorem reachable_inv (c : Crypto) (hc : CryptoSane c) (srv : Bool) (rx : Rx)
-    (h : Reachable c srv rx) : RxInv c srv rx := by
+theorem reachable_inv (c : Crypto) (hc : CryptoSane c) (srv : Bool) (S : Nat)
+    (hS : maxFrameLength - 1 ≤ S) (rx0 rx : Rx) (h0 : RxInv S rx0)
+    (h : Reachable c srv rx0 rx) : RxInv S rx := by
   induction h with
-  | init => exact rxInv_init c srv
-  | @ret rx0 n evs rx' bytes rest _ hcb hread ih =>
-    have := read_inv c hc srv n evs rx0 ih hcb
+  | init => exact h0
+  | @ret rx1 n evs rx' bytes rest _ hcb hread ih =>
+    have := read_inv c hc srv n S hS evs rx1 ih hcb
     rw [hread] at this
     exact this.2.2 rfl
-  | @blocked rx0 n evs rx' _ hcb hread ih =>
-    have := read_inv c hc srv n evs rx0 ih hcb
+  | @blocked rx1 n evs rx' _ hcb hread ih =>
+    have := read_inv c hc srv n S hS evs rx1 ih hcb
     rw [hread] at this
     exact this
 
-/-- **for every peer behaviour and every segmentation, `receiveBuffer` +
+/-- **server: for every peer behaviour and every segmentation, `receiveBuffer` +
     `receiveDecodedBuffer` never exceed `consumeReadSize + maxFrameLength − 1` bytes** between
-    calls; a connection waiting for data with nothing decoded holds less than one frame
-    (`< maxFrameLength`); and the state a failing `Read` leaves behind obeys the same bound. -/
+    calls, `receiveBuffer` alone holds less than one frame (`< maxFrameLength`), and the state
+    a failing `Read` leaves behind obeys the same total bound. -/
 theorem obfs4_data_buffer_bounded (c : Crypto) (hc : CryptoSane c) (srv : Bool) (rx : Rx)
-    (h : Reachable c srv rx) :
+    (h : Reachable c srv Rx.init rx) :
     rx.rxBuf.length + rx.decoded.length ≤ obfs4DataBound ∧
     rx.rxBuf.length < maxFrameLength ∧
     (∀ n evs rx' bytes err rest, ChunksBounded evs →
       read c srv n rx evs = .ret rx' bytes err rest →
       rx'.rxBuf.length + rx'.decoded.length ≤ obfs4DataBound) := by
-  have hi := reachable_inv c hc srv rx h
-  refine ⟨hi.total, settled_short c srv rx.dec rx.rxBuf hi.dec hi.settled, ?_⟩
+  have hS : maxFrameLength - 1 ≤ obfs4SettledBound := Nat.le_refl _
+  have hi := reachable_inv c hc srv obfs4SettledBound hS Rx.init rx (rxInv_init _) h
+  have hb : obfs4DataBound = obfs4SettledBound + consumeReadSize := by decide
+  have hsb : obfs4SettledBound = maxFrameLength - 1 := rfl
+  have hpos : 0 < maxFrameLength := by decide
+  refine ⟨by have := hi.total; omega, by have := hi.raw; omega, ?_⟩
   intro n evs rx' bytes err rest hcb hread
-  have := read_inv c hc srv n evs rx hi hcb
+  have := read_inv c hc srv n obfs4SettledBound hS evs rx hi hcb
   rw [hread] at this
-  exact this.1
-
-/-- during a call: right after the network read is appended, `receiveBuffer` is at its peak,
-    still within the bound (the decoded buffer is empty whenever `Read` reads the network) -/
-theorem obfs4_data_peak_bounded (c : Crypto) (hc : CryptoSane c) (srv : Bool) (rx : Rx)
-    (h : Reachable c srv rx) (chunk : Bytes) (hch : chunk.length ≤ consumeReadSize) :
-    (rx.rxBuf ++ chunk).length ≤ obfs4DataBound := by
-  have := (obfs4_data_buffer_bounded c hc srv rx h).2.1
-  have hb : obfs4DataBound = consumeReadSize + maxFrameLength - 1 := rfl
-  simp only [List.length_append]
+  have := this.2.1
   omega
+
+/-- **client: the same with the handshake surplus**: whatever followed the server response in
+    the handshake buffer (at most `obfs4HsBound` bytes) is the initial `receiveBuffer`; both
+    buffers together never exceed `obfs4HsBound + consumeReadSize`. -/
+theorem obfs4_data_buffer_bounded_client (c : Crypto) (hc : CryptoSane c) (srv : Bool)
+    (surplus : Bytes) (hs : surplus.length ≤ obfs4HsBound) (rx : Rx)
+    (h : Reachable c srv (clientStart surplus) rx) :
+    rx.rxBuf.length + rx.decoded.length ≤ obfs4ClientDataBound ∧
+    (∀ n evs rx' bytes err rest, ChunksBounded evs →
+      read c srv n rx evs = .ret rx' bytes err rest →
+      rx'.rxBuf.length + rx'.decoded.length ≤ obfs4ClientDataBound) := by
+  have hS : maxFrameLength - 1 ≤ obfs4HsBound := by decide
+  have hi := reachable_inv c hc srv obfs4HsBound hS _ rx (rxInv_clientStart surplus hs) h
+  have hb : obfs4ClientDataBound = obfs4HsBound + consumeReadSize := rfl
+  refine ⟨by have := hi.total; omega, ?_⟩
+  intro n evs rx' bytes err rest hcb hread
+  have := read_inv c hc srv n obfs4HsBound hS evs rx hi hcb
+  rw [hread] at this
+  have := this.2.1
+  omega
+
+/-- once a `Read` has gone to the network and returned without an error, `receiveBuffer` is
+    short again (less than one frame), for the client too: the surplus is transient -/
+theorem obfs4_data_settles (c : Crypto) (hc : CryptoSane c) (srv : Bool) (rx : Rx)
+    (hd : DecOK rx.dec) (chunk : Bytes) :
+    (readPackets c srv rx (.data chunk)).2 = none →
+    (readPackets c srv rx (.data chunk)).1.rxBuf.length < maxFrameLength := by
+  intro herr
+  simp only [readPackets] at herr ⊢
+  have hd1 : DecOK ({ rx with rxBuf := rx.rxBuf ++ chunk } : Rx).dec := hd
+  obtain ⟨t1, _, _⟩ := processBuffer_total c hc srv
+    (procFuel { rx with rxBuf := rx.rxBuf ++ chunk }) _ hd1
+  have hs := processBuffer_settles c hc srv _ _ hd1 (by unfold procFuel; omega) herr
+  exact settled_short c srv _ _ t1 hs
 
 /-- the bound is below the "`consumeReadSize` + one segment" of the property text -/
 theorem obfs4DataBound_lt : obfs4DataBound < consumeReadSize + maximumSegmentLength := by decide
@@ -400,5 +444,14 @@ example : (match read toyCrypto false 10 Rx.init [.data (toyFrame.take 7), .data
 example : (match read toyCrypto false 10 Rx.init [.data (toyFrame.take 7)] with
     | .ret _ _ _ _ => none
     | .blocked rx => some (rx.rxBuf.length, rx.dec.pending)) = some (5, some (21, false)) := by decide
+
+deriving instance DecidableEq for O4.Obfs4.ReadResult
+
+/-- a reachable state with a non-empty decoded buffer: one frame arrives whole, `Read(b)` with
+    `len b = 1` returns "h" and keeps "i" -/
+example : Reachable toyCrypto false Rx.init ⟨⟨1, none⟩, [], [105], []⟩ :=
+  Reachable.ret (n := 1) (evs := [.data toyFrame]) (bytes := [104]) (rest := []) .init
+    (by intro ch h; simp only [List.mem_singleton, NetEv.data.injEq] at h; subst h; decide)
+    (by decide)
 
 end C10
